@@ -15,7 +15,7 @@ from ..astutil import text, short, endswith, calls_in, walk_no_nested, names_loa
 from .. import events as E
 from .. import types as T
 from ._h_A import (FactReach, branch_succ, loop_breaks, nodes_of_stmts, nodes_for, kwarg, is_const,
-                   stmts_in)
+                   stmts_in, never_returns)
 
 EXPLANATION = (
   "Decides the structural legs of the out-of-order protocol that keeps a formula from ever being "
@@ -316,7 +316,8 @@ def r1_scan(run, w, sc):
   starts = set()
   for f in flag_nodes:
     starts |= cfg.normal_succ(f)
-  fr = FactReach(cfg, {sc.flag, "allow_evaluation"})
+  fr = FactReach(cfg, {sc.flag, "allow_evaluation"},
+                 noreturn=lambda n: never_returns(w, fn, n))
   seen = fr.run([(s, {sc.flag: True}) for s in starts], stop={head})
   rets = [n for n in seen if cfg.nodes[n].kind == "return" and n in body]
   run.ob(R1, fn.qualname, "no `return` is reachable while %s is true" % sc.flag,
@@ -326,6 +327,9 @@ def r1_scan(run, w, sc):
          % cfg.nodes[rets[0]].lineno)
   # (g) required + not allowed to evaluate => OrderError for this cell, nothing else
   seen = fr.run([(s, {sc.flag: True, "allow_evaluation": False}) for s in starts], stop={head})
+  if fr.noreturn_seen:
+    raise AnalysisError("%s: the OrderError is raised by a helper (`%s`); the protocol can no "
+                        "longer be followed here" % (STEP, short(cfg.nodes[min(fr.noreturn_seen)].stmt)))
   evals = sc.eval_nodes(cfg)
   back = {p for p in cfg.pred[head] if p in seen and p in body and cfg.nodes[p].kind != "continue"
           and (p, head) not in cfg.exc_edges}
